@@ -14,6 +14,9 @@ CONSTANTS
   NoDotEscape = FALSE
   DecoderStrips = FALSE
   DotAnyIndent = FALSE
+  StaleDump = FALSE
+  LicMemoBySynopsis = FALSE
+  ParseMemoAliased = FALSE
 SPECIFICATION Spec
 INVARIANT CodecProps
 CHECK_DEADLOCK FALSE
